@@ -1,5 +1,6 @@
 #!/usr/bin/env python3
-# Confirms every seeded change under /tmp/seed/out and records it under /verif/seeded/<id>/.
+# Confirms every seeded change under $SEED_ROOT (default /tmp/seed/out) and records it under /verif/seeded/<id>/.
+# SEED_TAG=r2 names the second round's changes Cxx-r2m1, Cxx-r2m2; their 'needs' text is taken from the README section.
 import json, os, re, shutil, subprocess, sys
 NEEDS = {
  "C01-m1":"an endpoint's upstream moves to another node (or two ids share a pool key) while the entry node holds an idle pooled inter-node connection",
@@ -44,12 +45,18 @@ NEEDS = {
  "C20-m2":"an upstream connect/disconnect concurrent with a gossip delta about a pending node (lock-order inversion)",
 }
 only = sys.argv[1:]
-out_root='/tmp/seed/out'
+out_root=os.environ.get('SEED_ROOT','/tmp/seed/out')
+tag=os.environ.get('SEED_TAG','')
+def needs_from_readme(src):
+    try: t=open(os.path.join(src,'README.md')).read()
+    except OSError: return 'see README.md'
+    m=re.search(r'^##[^\n]*(?:needed|needs)[^\n]*\n(.*?)(?=^## |\Z)',t,re.S|re.M|re.I)
+    return re.sub(r'\s+',' ',m.group(1)).strip()[:600] if m else 'see README.md'
 results=[]
 for prop in sorted(os.listdir(out_root)):
     for m in ('m1','m2'):
         src=os.path.join(out_root,prop,m)
-        sid=f"{prop}-{m}"
+        sid=f"{prop}-{tag}{m}"
         if only and sid not in only: continue
         if not os.path.exists(os.path.join(src,'patch.diff')) or not os.path.exists(os.path.join(src,'demo_path.txt')): continue
         missing=[l.split()[0] for l in open(os.path.join(src,'demo_path.txt')) if l.strip() and not os.path.exists(os.path.join(src,l.split()[0]))]
@@ -72,7 +79,7 @@ for prop in sorted(os.listdir(out_root)):
         meta={
           "id":sid,"property":prop,
           "breaks":open(os.path.join(out_root,prop,'PROPERTY.txt')).read().splitlines()[0],
-          "needs_to_manifest":NEEDS.get(sid,"see README.md"),
+          "needs_to_manifest":NEEDS.get(sid) if not tag else needs_from_readme(src),
           "what_was_run":{
             "scratch_worktree":"git -C /repo worktree add --detach <tmp> HEAD; demo copied per demo_path.txt; demo_cmd.txt run before and after `git apply patch.diff`; `go build ./...`; `go test -vet=off -count=1 ./...` with the patch and without the demo; worktree removed",
             "demo_on_unchanged_tree":kv.get('demo_clean'),"build_with_patch":kv.get('build'),
@@ -86,5 +93,5 @@ for prop in sorted(os.listdir(out_root)):
         }
         json.dump(meta,open(os.path.join(dst,'meta.json'),'w'),indent=1)
         results.append(meta)
-json.dump([{k:m[k] for k in ('id','property','detected')} for m in results],open('/tmp/seed/sweep.json','w'),indent=1)
+json.dump([{k:m[k] for k in ('id','property','detected')} for m in results],open('/tmp/seedsweep%s.json'%tag,'w'),indent=1)
 print('detected',sum(m['detected'] for m in results),'of',len(results))
